@@ -631,33 +631,199 @@ def tr_mark_step_pending():
         raise TranslatorError("Workflow.mark_step_pending: RUNNING/CHECKING no-op or PENDING write changed")
 
 
+class _SlotTest:
+    """Python boolean expression over the Builder's counters -> Gallina bool over Z.
+
+    Vocabulary: len(self.running_tasks) -> nrunning; self.njob -> njob; self.<X> for an int field X
+    of Builder that counts the calls of run_promoted_hash_jobs in progress (see _waiting_counters)
+    -> nwaiting; integer literals, + - (and max/min), comparisons (chained too), and/or/not,
+    True/False, and calls self.m() of a method whose body is a single `return <expr>` (inlined).
+    Anything else: TranslatorError (fail closed)."""
+
+    CMP = {"Lt": "Z.ltb {a} {b}", "LtE": "Z.leb {a} {b}", "Gt": "Z.ltb {b} {a}", "GtE": "Z.leb {b} {a}",
+           "Eq": "Z.eqb {a} {b}", "NotEq": "negb (Z.eqb {a} {b})"}
+
+    def __init__(self, cls_node, waiting):
+        self.cls, self.waiting, self.used, self.depth = cls_node, waiting, set(), 0
+
+    def boolean(self, e):
+        if isinstance(e, ast.BoolOp):
+            op = " && " if isinstance(e.op, ast.And) else " || "
+            return "(" + op.join(self.boolean(v) for v in e.values) + ")"
+        if isinstance(e, ast.UnaryOp) and isinstance(e.op, ast.Not):
+            return f"(negb {self.boolean(e.operand)})"
+        if isinstance(e, ast.Constant) and isinstance(e.value, bool):
+            return "true" if e.value else "false"
+        if isinstance(e, ast.Compare):
+            terms = [self.integer(e.left)] + [self.integer(c) for c in e.comparators]
+            parts = []
+            for i, op in enumerate(e.ops):
+                k = type(op).__name__
+                if k not in self.CMP:
+                    raise TranslatorError(f"job_loop: comparison {k} in a slot test not recognised")
+                parts.append("(" + self.CMP[k].format(a=terms[i], b=terms[i + 1]) + ")")
+            return parts[0] if len(parts) == 1 else "(" + " && ".join(parts) + ")"
+        if isinstance(e, ast.Call) and not e.args and not e.keywords and isinstance(e.func, ast.Attribute) \
+                and ast.unparse(e.func.value) == "self":
+            return self.inline(e.func.attr, self.boolean)
+        raise TranslatorError(f"job_loop: slot test `{ast.unparse(e)}` is not a recognised boolean expression")
+
+    def inline(self, name, how):
+        self.depth += 1
+        if self.depth > 4:
+            raise TranslatorError("job_loop: slot test helpers nest too deeply")
+        fns = [n for n in self.cls.body if isinstance(n, (ast.FunctionDef, ast.AsyncFunctionDef)) and n.name == name]
+        if len(fns) != 1 or isinstance(fns[0], ast.AsyncFunctionDef):
+            raise TranslatorError(f"job_loop: slot test calls self.{name}(), which is not a plain method of Builder")
+        from .astutil import body_without_docstring
+        body = body_without_docstring(fns[0])
+        decos = [ast.unparse(d) for d in fns[0].decorator_list]
+        if len(body) != 1 or not isinstance(body[0], ast.Return) or body[0].value is None or decos:
+            raise TranslatorError(f"job_loop: Builder.{name} is not a single `return <expr>`")
+        out = how(body[0].value)
+        self.depth -= 1
+        return out
+
+    def integer(self, e):
+        src = ast.unparse(e)
+        if src == "len(self.running_tasks)":
+            self.used.add("nrunning")
+            return "nrunning"
+        if src == "self.njob":
+            self.used.add("njob")
+            return "njob"
+        if isinstance(e, ast.Attribute) and ast.unparse(e.value) == "self" and e.attr in self.waiting:
+            self.used.add("nwaiting")
+            return "nwaiting"
+        if isinstance(e, ast.Constant) and isinstance(e.value, int) and not isinstance(e.value, bool):
+            return f"({e.value})%Z" if e.value < 0 else f"{e.value}%Z"
+        if isinstance(e, ast.BinOp) and isinstance(e.op, (ast.Add, ast.Sub)):
+            op = "+" if isinstance(e.op, ast.Add) else "-"
+            return f"({self.integer(e.left)} {op} {self.integer(e.right)})%Z"
+        if isinstance(e, ast.UnaryOp) and isinstance(e.op, ast.USub):
+            return f"(- {self.integer(e.operand)})%Z"
+        if isinstance(e, ast.Call) and ast.unparse(e.func) in ("max", "min") and len(e.args) == 2 and not e.keywords:
+            return f"(Z.{ast.unparse(e.func)} {self.integer(e.args[0])} {self.integer(e.args[1])})"
+        if isinstance(e, ast.Call) and not e.args and not e.keywords and isinstance(e.func, ast.Attribute) \
+                and ast.unparse(e.func.value) == "self":
+            return self.inline(e.func.attr, self.integer)
+        if isinstance(e, ast.Attribute) and ast.unparse(e.value) == "self":
+            # a property of Builder with a single return is inlined as well
+            props = [n for n in self.cls.body if isinstance(n, ast.FunctionDef) and n.name == e.attr
+                     and [ast.unparse(d) for d in n.decorator_list] == ["property"]]
+            if len(props) == 1:
+                from .astutil import body_without_docstring
+                body = body_without_docstring(props[0])
+                if len(body) == 1 and isinstance(body[0], ast.Return) and body[0].value is not None:
+                    self.depth += 1
+                    if self.depth > 4:
+                        raise TranslatorError("job_loop: slot test helpers nest too deeply")
+                    out = self.integer(body[0].value)
+                    self.depth -= 1
+                    return out
+        raise TranslatorError(f"job_loop: `{src}` in a slot test is not a counter the model knows "
+                              "(len(self.running_tasks), self.njob, or a counter of the calls parked in "
+                              "run_promoted_hash_jobs)")
+
+
+def _waiting_counters(builder_tree):
+    """Int fields of Builder whose value is the number of run_promoted_hash_jobs calls in progress:
+    declared with default 0, written nowhere in stepup/core except `self.X += 1` directly in front of a
+    `try:` that awaits the promoted hash jobs and whose `finally:` is exactly `self.X -= 1`, inside
+    Builder.run_promoted_hash_jobs."""
+    import os
+    from .astutil import functions_with_parents
+    cls = [n for n in ast.walk(builder_tree) if isinstance(n, ast.ClassDef) and n.name == "Builder"]
+    if len(cls) != 1:
+        raise TranslatorError("class Builder not found")
+    cls = cls[0]
+    cands = {}
+    for n in cls.body:
+        if isinstance(n, ast.AnnAssign) and isinstance(n.target, ast.Name) and ast.unparse(n.annotation) == "int" \
+                and n.value is not None:
+            v = n.value
+            zero = (isinstance(v, ast.Constant) and v.value == 0) or (
+                isinstance(v, ast.Call) and ast.unparse(v.func) in ("attrs.field", "field")
+                and any(k.arg == "default" and isinstance(k.value, ast.Constant) and k.value.value == 0 for k in v.keywords)
+                and any(k.arg == "init" and isinstance(k.value, ast.Constant) and k.value.value is False for k in v.keywords))
+            if zero:
+                cands[n.target.id] = []
+    if not cands:
+        return cls, set()
+    # every write of an attribute with one of these names, anywhere in stepup/core
+    for root, _, files in os.walk(REPO / CORE):
+        for f in sorted(files):
+            if not f.endswith(".py"):
+                continue
+            rel = os.path.relpath(os.path.join(root, f), REPO)
+            try:
+                t = ast.parse(open(os.path.join(root, f)).read())
+            except SyntaxError as e:
+                raise TranslatorError(f"cannot parse {rel}: {e}") from e
+            for qn, fnode in functions_with_parents(t):
+                for n in ast.walk(fnode):
+                    tgts = []
+                    if isinstance(n, ast.Assign):
+                        tgts = n.targets
+                    elif isinstance(n, (ast.AugAssign, ast.AnnAssign)):
+                        tgts = [n.target]
+                    elif isinstance(n, ast.Call) and ast.unparse(n.func) in ("setattr", "object.__setattr__") and len(n.args) >= 2 \
+                            and isinstance(n.args[1], ast.Constant) and n.args[1].value in cands:
+                        cands[n.args[1].value].append((rel, qn, "setattr"))
+                    for tg in tgts:
+                        for sub in ast.walk(tg):
+                            if isinstance(sub, ast.Attribute) and sub.attr in cands:
+                                cands[sub.attr].append((rel, qn, ast.unparse(n)))
+    fn = find_function(builder_tree, "run_promoted_hash_jobs", "Builder")
+    shapes = set()
+    for i, st in enumerate(fn.body[:-1]):
+        nxt = fn.body[i + 1]
+        if isinstance(st, ast.AugAssign) and isinstance(st.op, ast.Add) and ast.unparse(st.value) == "1" \
+                and isinstance(nxt, ast.Try) and not nxt.handlers and not nxt.orelse and len(nxt.finalbody) == 1:
+            fin = nxt.finalbody[0]
+            if isinstance(fin, ast.AugAssign) and isinstance(fin.op, ast.Sub) and ast.unparse(fin.value) == "1" \
+                    and ast.unparse(fin.target) == ast.unparse(st.target) \
+                    and any(isinstance(x, ast.Await) for b in nxt.body for x in ast.walk(b)) \
+                    and all(not isinstance(x, ast.Await) for x in ast.walk(st)):
+                # everything that awaits in this function lies inside that try
+                outside = [x for j, b in enumerate(fn.body) if b is not nxt and not isinstance(b, (ast.FunctionDef, ast.AsyncFunctionDef))
+                           for x in ast.walk(b) if isinstance(x, ast.Await)]
+                if not outside and isinstance(st.target, ast.Attribute) and ast.unparse(st.target.value) == "self":
+                    shapes.add(st.target.attr)
+    out = set()
+    for name, writes in cands.items():
+        if not writes:
+            continue            # a constant 0: not a counter
+        ok = name in shapes and len(writes) == 2 and all(
+            rel == f"{CORE}/builder.py" and qn == "Builder.run_promoted_hash_jobs" for rel, qn, _ in writes)
+        if ok:
+            out.add(name)
+    return cls, out
+
+
 def tr_builder():
     tree = parse_module(f"{CORE}/builder.py")
     fn = find_function(tree, "job_loop", "Builder")
     loops = [n for n in fn.body if isinstance(n, ast.While)]
     if len(loops) != 1:
         raise TranslatorError("job_loop: expected one top-level while loop")
+    cls, waiting = _waiting_counters(tree)
     guards = []
+    tests = {}
     for st in loops[0].body:
         if isinstance(st, ast.If):
-            t = st.test
             src = ast.unparse(st)
             if "start_hash_task" in src or "start_task" in src:
-                ok = (isinstance(t, ast.Compare) and len(t.ops) == 1 and len(t.comparators) == 1
-                      and ast.unparse(t.left) == "len(self.running_tasks)"
-                      and ast.unparse(t.comparators[0]) == "self.njob")
-                if not ok:
-                    raise TranslatorError("job_loop: a task start is not guarded by len(self.running_tasks) ? self.njob")
-                guards.append((type(t.ops[0]).__name__, "hash" if "start_hash_task" in src else "job", st))
+                if st.orelse:
+                    raise TranslatorError("job_loop: a guarded task start has an else branch")
+                kind = "hash" if "start_hash_task" in src else "job"
+                if "start_hash_task" in src and "self.start_task" in src:
+                    raise TranslatorError("job_loop: both kinds of task are started under one test")
+                tr = _SlotTest(cls, waiting)
+                tests[kind] = (tr.boolean(st.test), sorted(tr.used), ast.unparse(st.test))
+                guards.append((None, kind, st))
     if sorted(g[1] for g in guards) != ["hash", "job"]:
         raise TranslatorError("job_loop: expected exactly one guarded hash start and one guarded job start")
-    ops = {g[0] for g in guards}
-    if len(ops) != 1:
-        raise TranslatorError("job_loop: the two slot guards differ")
-    op = ops.pop()
-    table = {"Lt": "Nat.ltb nrunning njob", "LtE": "Nat.leb nrunning njob", "NotEq": "negb (Nat.eqb nrunning njob)"}
-    if op not in table:
-        raise TranslatorError(f"job_loop: slot comparison {op} not recognised")
     # every start_* call in the loop body lies inside one of the guarded ifs, and each guarded
     # block `continue`s right after starting (one start per guard evaluation)
     for _, kind, st in guards:
@@ -737,7 +903,28 @@ def tr_builder():
     td = norm(ast.unparse(find_function(tree, "_task_done", "Builder")))
     if "job = self.running_tasks.pop(task)" not in td:
         raise TranslatorError("_task_done no longer frees the slot")
-    return f"Definition slot_guard (nrunning njob : nat) : bool :=\n  {table[op]}.", facts
+    # run_promoted_hash_jobs is entered only from the amend_step handler (a running step's RPC)
+    callers = []
+    import os as _os
+    from .astutil import functions_with_parents as _fwp
+    for root, _, files in _os.walk(REPO / CORE):
+        for f in sorted(files):
+            if f.endswith(".py"):
+                rel = _os.path.relpath(_os.path.join(root, f), REPO)
+                for qn, fnode in _fwp(ast.parse(open(_os.path.join(root, f)).read())):
+                    for n in ast.walk(fnode):
+                        if isinstance(n, ast.Call) and ast.unparse(n.func).endswith(".run_promoted_hash_jobs"):
+                            callers.append(f"{rel}:{qn}")
+    facts["promoted_callers"] = uniq(callers)
+    if facts["promoted_callers"] != [f"{CORE}/director.py:DirectorHandler.amend_step"]:
+        raise TranslatorError(f"structure: promoted_callers = {facts['promoted_callers']}")
+    facts["slot_tests"] = {k: {"source": v[2], "reads": v[1]} for k, v in tests.items()}
+    facts["waiting_counters"] = sorted(waiting)
+    text = "\n".join(
+        f"(* Builder.job_loop, test in front of {'start_hash_task' if k == 'hash' else 'pop_next_job / start_task'}: `{tests[k][2]}` *)\n"
+        f"Definition {k}_slot_free (nrunning nwaiting njob : Z) : bool :=\n  {tests[k][0]}."
+        for k in ("hash", "job"))
+    return text, facts
 
 
 def tr_director():
